@@ -4,7 +4,12 @@ import importlib
 import os
 import sys
 
+import logging
+
 from . import core
+
+logging.getLogger("rtctools").setLevel(logging.CRITICAL + 1)
+logging.disable(logging.CRITICAL)
 
 
 def main():
